@@ -33,7 +33,7 @@ import random
 from fractions import Fraction as Fr
 
 __all__ = ["Env", "MixtureEnv", "TableEnv", "evaluate", "names_of", "free_names", "random_valuation",
-           "identity_test", "lean_env_sexp", "var_atom"]
+           "identity_test", "lean_env_sexp", "var_atom", "SharedEnv", "shared_env"]
 
 
 # ----------------------------------------------------------------------------------------------- environments
@@ -232,15 +232,55 @@ def random_valuation(rng: random.Random, env: Env, names):
     return {n: rng.randrange(env.card(n)) for n in sorted(names)}
 
 
+class SharedEnv(MixtureEnv):
+    """a MixtureEnv whose cardinalities are a deterministic function of (seed, name): one object serves every case of a
+    worker process, so the pmfs and the `pr` cache are computed once (the evaluation-environment cache of C10/C13)"""
+
+    def __init__(self, seed, max_card=3, n_comp=3):
+        super().__init__(seed, {}, n_comp=n_comp)
+        self.max_card = max_card
+
+    def card(self, name):
+        c = self.cards.get(name)
+        if c is None:
+            c = self.cards[name] = random.Random(f"card|{self.seed}|{name}").randint(2, self.max_card)
+        return c
+
+
+_SHARED: dict = {}
+N_SHARED = 12
+
+
+def shared_env(i, max_card=3):
+    e = _SHARED.get((i, max_card))
+    if e is None:
+        e = _SHARED[(i, max_card)] = SharedEnv(7000 + i, max_card)
+        e.requested = _NoRecord()
+    return e
+
+
+class _NoRecord(dict):
+    def setdefault(self, k, v=None):
+        return v
+
+
 def identity_test(e1, e2, rng: random.Random, n_envs: int = 2, n_sigma: int = 3, names=None, max_card: int = 3,
-                  star_differs: bool = True):
+                  star_differs: bool = True, shared: bool = False):
     """Evaluate both expressions on `n_envs` random positive environments x `n_sigma` random valuations.
-    Returns None when all values agree, else a JSON-serialisable witness."""
+    Returns None when all values agree, else a JSON-serialisable witness.
+    shared=True draws the environments from a per-process pool of N_SHARED generic positive environments (cached pmfs
+    and joint probabilities) instead of building fresh ones: same soundness, ~3x cheaper."""
     names = sorted(set(names or ()) | names_of(e1) | names_of(e2))
-    for _ in range(n_envs):
-        seed = rng.randrange(1 << 30)
-        cards = {n: rng.randint(2, max_card) for n in names}
-        env = MixtureEnv(seed, cards)
+    picks = rng.sample(range(N_SHARED), n_envs) if shared else [None] * n_envs
+    for pk in picks:
+        if pk is None:
+            seed = rng.randrange(1 << 30)
+            cards = {n: rng.randint(2, max_card) for n in names}
+            env = MixtureEnv(seed, cards)
+        else:
+            env = shared_env(pk, max_card)
+            seed = env.seed
+            cards = {n: env.card(n) for n in names}
         for _ in range(n_sigma):
             sigma = random_valuation(rng, env, names)
             sigma_star = random_valuation(rng, env, names) if star_differs else sigma
@@ -248,7 +288,7 @@ def identity_test(e1, e2, rng: random.Random, n_envs: int = 2, n_sigma: int = 3,
             b = evaluate(e2, env, sigma, sigma_star)
             if a != b:
                 return {"env_seed": seed, "cards": cards, "sigma": sigma, "sigma_star": sigma_star,
-                        "lhs": str(a), "rhs": str(b)}
+                        "lhs": str(a), "rhs": str(b), "shared_env": pk}
     return None
 
 
